@@ -56,7 +56,7 @@ def handleStream (raw : String) (rest : List String) : String :=
         | _, _ => none
       | _, _ => none
     match frames n.toNat! r with
-    | some (fs, "C" :: _ :: cs) => "verdict=" ++ judgeStream s fs (cs.map String.toNat!)
+    | some (fs, "C" :: _ :: cs) => "verdict=" ++ judgeStream s fs (cs.map String.toNat!) ++ " partial=" ++ judgePartial s fs
     | _ => "bad-op"
   | _, _ => "bad-op"
 
